@@ -299,10 +299,23 @@ def r4_robust_listing(repo=None):
     m = pyfront.mod("list_drf", repo)
     n_ld = 0
     for q, f in m.functions.items():
-        if "<locals>" in q or q == "ilsdrf":
-            continue  # ilsdrf lists the *parent* of a sub-directory given by the caller, not a sub-directory found by a scan
+        if "<locals>" in q:
+            continue
+        params = {a.arg for a in f.args.args}
+        # the parent of a path given by the caller (root, name = os.path.split(<parameter>)) is not a sub-directory found by a scan
+        parents = set()
+        for n in pyfront.walk_no_nested(f):
+            if isinstance(n, ast.Assign) and isinstance(n.value, ast.Call) and pyfront.call_name(n.value) in ("os.path.split", "os.path.dirname") \
+                    and n.value.args and isinstance(n.value.args[0], ast.Name) and n.value.args[0].id in params:
+                t = n.targets[0]
+                if isinstance(t, ast.Tuple) and isinstance(t.elts[0], ast.Name):
+                    parents.add(t.elts[0].id)
+                elif isinstance(t, ast.Name):
+                    parents.add(t.id)
         for c in pyfront.walk_no_nested(f):
             if isinstance(c, ast.Call) and pyfront.call_name(c) == "os.listdir":
+                if c.args and isinstance(c.args[0], ast.Name) and c.args[0].id in parents:
+                    continue
                 n_ld += 1
                 site = "%s:%s %s `%s`" % (m.rel, c.lineno, q, norm(ast.unparse(c)))
                 if _in_oserror_try(m, c):
@@ -310,8 +323,8 @@ def r4_robust_listing(repo=None):
                 else:
                     r.violation(m.rel, q, norm(ast.unparse(c)), "listing a timestamped sub-directory is not guarded: a sub-directory removed "
                                 "meanwhile (ringbuffer, mirror) makes the whole listing fail", line=c.lineno)
-    if n_ld < 2:
-        raise AnalysisError("list_drf: expected 2 os.listdir sites for sub-directories, found %d" % n_ld)
+    if n_ld < 1:
+        raise AnalysisError("list_drf: expected os.listdir sites for sub-directories (2 on the reference tree), found %d" % n_ld)
     # constant subscripts of lists produced by _decorate_drf_files are guarded by a non-emptiness test
     n_sub = 0
     for q, f in m.functions.items():
